@@ -312,6 +312,19 @@ pub fn observe_state(w: &World, lines: &mut Vec<String>) {
             "ord{label} {}",
             v.iter().map(|(cid, st)| format!("{}:{}", cid, fmt_active(st))).collect::<Vec<_>>().join(" ")
         ));
+        // position and price of every instrument after every tick (C19: commands leave them untouched)
+        let ins = engine.state.instruments.instrument_index(&InstrumentIndex(*idx));
+        lines.push(match &ins.position.current {
+            None => format!("pos{label} none"),
+            Some(p) => format!("pos{label} {}:{}", fmt_side(p.side), fmt_dec(p.quantity_abs)),
+        });
+        {
+            use barter::engine::state::instrument::data::InstrumentDataState;
+            lines.push(match ins.data.price() {
+                None => format!("price{label} none"),
+                Some(p) => format!("price{label} {}", fmt_dec(p)),
+            });
+        }
     }
     lines.push(format!(
         "trading {}",
